@@ -194,9 +194,10 @@ fn plant_nth(v: &mut Value, n: &mut usize, name: &str, val: &Value) -> bool {
 }
 
 fn gen_holder_key(r: &mut Rng) -> Option<KeyId> {
-    match r.below(3) {
+    match r.below(4) {
         0 => None,
         1 => Some(KeyId::HolderEc),
+        2 => Some(KeyId::HolderEc2),
         _ => Some(KeyId::HolderEd),
     }
 }
@@ -305,6 +306,7 @@ pub fn gen_holder_history(r: &mut Rng, tier: Tier) -> HolderHistory {
     }
     let claims = issue.claims.clone();
     let n = if wide { r.range(3, 5) } else { r.range(1, 8) };
+    let twin_kb = r.chance(1, 6);
     let mut calls = vec![];
     for ci in 0..n {
         let sel = match if wide && ci == 0 { 0 } else { r.below(6) } {
@@ -380,7 +382,17 @@ pub fn gen_holder_history(r: &mut Rng, tier: Tier) -> HolderHistory {
             }
             _ => {}
         }
-        calls.push(HCall { args: a, class: class.to_string() });
+        calls.push(HCall { args: a.clone(), class: class.to_string() });
+        // the same key-bound call again at once, signed with another key of the same family (and the same kid)
+        if twin_kb && class == "kb" && calls.len() < 8 {
+            if let Some(k) = a.key {
+                if k.fam() == Fam::Ec {
+                    let mut b = a.clone();
+                    b.key = Some(other_key_same_family(k));
+                    calls.push(HCall { args: b, class: "kb".to_string() });
+                }
+            }
+        }
     }
     let fmt = issue.fmt;
     HolderHistory { issue: Some(issue), input: None, fmt, calls }
@@ -805,6 +817,15 @@ fn judge_holder_history(ctx: &mut Ctx, h: &HolderHistory, run: &HolderRun) {
             let (hd, pl) = kb_decoded(kb);
             if pl.as_ref().and_then(|x| x.get("nonce")).and_then(Value::as_str) != a.nonce.as_deref() || pl.as_ref().and_then(|x| x.get("aud")).and_then(Value::as_str) != a.aud.as_deref() {
                 problems.push("the key-binding JWT does not carry this call's nonce and audience".into());
+            }
+            // signed by THIS call's key (not by a key of an earlier call): checked with the real cryptography
+            if let (Some(k), Some((msg, sig))) = (a.key, kb.rsplit_once('.')) {
+                let alg = hd.as_ref().and_then(|x| x.get("alg")).and_then(Value::as_str).and_then(alg_of_name);
+                if let Some(alg) = alg {
+                    if !jsonwebtoken::crypto::verify(sig, msg.as_bytes(), &k.decoding(), alg).unwrap_or(false) {
+                        problems.push("the key-binding JWT is not signed by the key passed to this call".into());
+                    }
+                }
             }
             if let Some(fkb) = &fp.kb {
                 let (fhd, fpl) = kb_decoded(fkb);
